@@ -1,4 +1,5 @@
 import FitProps.EndToEndLemmas
+import FitProps.EndToEndDescLemmas
 /-!
 # C01 — Encode then decode returns the messages that were written (END TO END: protocol values, the real validator)
 
@@ -169,7 +170,7 @@ def C01_e2e_reencode_full : Prop :=
 For encoder output it follows from `C01_e2e_actual` value by value (the example below evaluates an instance); for arbitrary
 input it needs an invariant of `decodeField` over all byte strings (a decoded value is aligned with the base type it is
 returned under, its array-ness is what the size implies) that the decoder-API lemma layer (C03: safety only) does not
-provide yet. At the value layer it holds for every numeric base type and ANY bytes (`C06_unmarshal_reencode_partial`: what
+provide yet. At the value layer it holds for every base type and ANY bytes (`C06_unmarshal_reencode`: what
 `UnmarshalValue` returned re-marshals and reads back as itself). The one class that refuted it on the pinned tree — a
 profile-bool ARRAY field holding bytes other than 0 / 1 / 255, finding KF-C01-boolarr — was repaired in /repo 5da5106
 (`C01_e2e_reencode_boolarr_roundtrip`); no refuting class is known. -/
@@ -364,6 +365,75 @@ example : (encodeChain exCfg exBack 0).1 = exBack.map (·.msgs) ∧ (encodeChain
     (∀ kept ∈ (encodeChain exCfg exBack 0).1, seqNormal exFac 1 {} kept = true ∧ inDomain exFac kept = true ∧ noKF exFac kept = true) ∧
     decodeValues exO (encodeChain exCfg exBack 0).2.1 = ((exBack.map (·.msgs)).map (·.map literal), none) ∧
     decodeValues exO (encodeChain exCfg exBack 0).2.1 = decodeValues exO (encodeChain exCfg exFiles 0).2.1 := by
+  decide +kernel
+
+/-! ### the wire model's decoder on what the real validator lets through (field descriptions) -/
+
+/-- **THE VALIDATOR GUARANTEES THE HYPOTHESIS OF THE WIRE THEOREMS.** `C01_wire_records` / `_sequence` / `_chain`
+(FitProps/C01.lean) need `Wire.msgsDescOK`: no developer field is written under a field description — the first one of the
+sequence for its developer data index and number, read as the DECODER reads it — whose base type is invalid (the decoder
+answers `errInvalidBaseType`). For every chain of files the encoder accepts through the real message validator (any
+validator option), built from a factory that knows the three key members of `field_description` (the standard factory:
+`keysKnown`), what validation retained satisfies it, file by file: the decoder reads from the written `field_description`
+messages exactly the descriptions the validator registered (`noteDesc_toWire`), and the validator lets a developer field
+through only when its value aligns with the described base type, which is then a valid one (`C10_post`). -/
+theorem C01_e2e_validator_descs (c : Cfg) (o : Fit.DecApi.Opts) (files : List FileIn) (kepts : List (List Message))
+    (bytes : List Nat) (henc : encodeChain c files 0 = (kepts, bytes, none)) (hne : files ≠ [])
+    (hc : CfgOK c files) (ho : PlainOpts o) (hdom : ∀ kept ∈ kepts, inDomain o.fac kept = true)
+    (hsmall : bytes.length < 4294967296) (hkeys : keysKnown o.fac = true) :
+    ∀ kept ∈ kepts, Wire.msgsDescOK [] (kept.map (toWire c.w.arch)) = true := by
+  obtain ⟨_, _, _, h3⟩ := e2e_chain c o files kepts bytes henc hne hc ho hdom hsmall
+  obtain ⟨hlen, _, _⟩ := encodeChain_ok c files 0 kepts bytes henc
+  intro kept hk
+  have : kept ∈ (filesOf c files kepts).map (·.2) := by rw [filesOf_snd c files kepts hlen]; exact hk
+  obtain ⟨file, hfile, rfl⟩ := List.mem_map.mp this
+  have hf := h3 file hfile
+  exact msgsDescOK_of_kept o.fac hkeys c.w.arch file.2 {} hf.keptOK hf.dom
+
+theorem chainBytes_eq (w : Wire.Opts) (fl : List (Wire.Hdr × List Message)) :
+    chainBytes w fl = Wire.encodeChain w (fl.map fun f => (f.1, f.2.map (toWire w.arch))) := by
+  simp [chainBytes, Wire.encodeChain, List.flatMap_map]
+
+/-- **THE WIRE DECODER ACCEPTS EVERY ACCEPTED CHAIN — no hypothesis on field descriptions left.** Under the hypotheses of
+`C01_e2e_actual` and `keysKnown`: the wire model's `Next`/`Decode` loop (`Wire.decodeStream`, the object of `C01_wire_chain`,
+with its field-description table and base-type check) runs over the bytes of the chain without error and returns one
+sequence per file whose records match the wire form of what validation retained (`FitMatches`): the explicit hypothesis
+`msgsDescOK` of the wire theorems is discharged by the real validator. -/
+theorem C01_e2e_wire_chain (tsKnown : Nat → Bool) (chk : Bool) (c : Cfg) (o : Fit.DecApi.Opts) (files : List FileIn)
+    (kepts : List (List Message)) (bytes : List Nat) (henc : encodeChain c files 0 = (kepts, bytes, none)) (hne : files ≠ [])
+    (hc : CfgOK c files) (ho : PlainOpts o) (hdom : ∀ kept ∈ kepts, inDomain o.fac kept = true)
+    (hsmall : bytes.length < 4294967296) (hkeys : keysKnown o.fac = true) :
+    ∃ evs, Wire.decodeStream tsKnown chk (files.length + 1) true bytes = (evs, none) ∧
+      AllMatch (FitMatches c.w) ((filesOf c files kepts).map fun f => (f.1, f.2.map (toWire c.w.arch))) (seqsOf evs) := by
+  obtain ⟨_, _, _, h3⟩ := e2e_chain c o files kepts bytes henc hne hc ho hdom hsmall
+  obtain ⟨hlen, hbytes, _⟩ := encodeChain_ok c files 0 kepts bytes henc
+  have hd := C01_e2e_validator_descs c o files kepts bytes henc hne hc ho hdom hsmall hkeys
+  have hfl : (filesOf c files kepts).length = files.length := by
+    simp [filesOf, List.length_zip, hlen]
+  have hne' : ((filesOf c files kepts).map fun f => (f.1, f.2.map (toWire c.w.arch))) ≠ [] := by
+    intro h
+    have : (filesOf c files kepts).length = 0 := by simpa using congrArg List.length h
+    rw [hfl] at this
+    exact hne (List.eq_nil_of_length_eq_zero this)
+  have := decodeStream_encodeChain tsKnown chk c.w hc.w ((filesOf c files kepts).map fun f => (f.1, f.2.map (toWire c.w.arch)))
+    (by
+      intro f hf
+      obtain ⟨file, hfile, rfl⟩ := List.mem_map.mp hf
+      exact (h3 file hfile).fit)
+    (by
+      intro f hf
+      obtain ⟨file, hfile, rfl⟩ := List.mem_map.mp hf
+      have hk : file.2 ∈ kepts := by
+        have : file.2 ∈ (filesOf c files kepts).map (·.2) := List.mem_map.mpr ⟨file, hfile, rfl⟩
+        rw [filesOf_snd c files kepts hlen] at this; exact this
+      exact hd _ hk) true (fun _ => hne') (files.length + 1) (by simp [hfl])
+  rw [hbytes, chainBytes_eq]
+  exact this
+
+/-- non-vacuity: the example factory knows the keys, and the example chain (developer fields described twice) meets every
+hypothesis; what the validator retained satisfies `msgsDescOK` (evaluated) -/
+example : keysKnown exFac = true ∧
+    ((encodeChain exCfg exFiles 0).1.all fun kept => Wire.msgsDescOK [] (kept.map (toWire exCfg.w.arch))) = true := by
   decide +kernel
 
 /-! ### the value layer, stated on its own -/
